@@ -433,6 +433,7 @@ fn explore_round(
         .filter(|c| c.broken.load(Ordering::SeqCst))
         .map(|c| (c.scn.name.clone(), c.scn.params.clone()))
         .collect();
+    broken.sort();
     broken.dedup();
     (
         Report {
